@@ -824,6 +824,11 @@ async fn bypass_async(ctx: &mut Ctx) {
     let mut next_rid = 1u64;
     let mut outcome: BTreeMap<u64, (usize, String)> = BTreeMap::new();
     let mut victim_outputs_in_quiet_phase = 0u32;
+    let sibling = {
+        let mut a = w.nodes[1].addr;
+        a.set_port(a.port().wrapping_add(7));
+        a
+    };
     // phases: even index = V asks (exemption expected), odd = P asks (nothing outstanding at V)
     let phase_of = |t: u64| -> usize { (t / gap) as usize };
     loop {
@@ -836,6 +841,25 @@ async fn bypass_async(ctx: &mut Ctx) {
             Obs::Horizon => break,
             Obs::Datagram { from, out } => {
                 let wi = w.tap(ctx, from, &out);
+                if from == 0 && out.0 == sibling {
+                    ctx.fail("c13.exemption-extended-to-other-address", format!("the victim emitted {} to {sibling}: a packet from that address (same IP as the peer it is waiting for, other port, IP banned) passed the filter although nothing is awaited from it", HWorld::<X>::describe(&w.wire[wi].dec)), &[]);
+                    break;
+                }
+                if from == 0 && phase_of(now_ms()) % 2 == 0 && out.0 == w.nodes[1].addr && ctx.tape.choose(2) == 0 {
+                    // while the victim waits for the banned peer's answer, another party at the same (banned) IP but
+                    // another port sends an unsolicited packet: the exemption is for the awaited address only
+                    let mut nonce = [0u8; 12];
+                    nonce.copy_from_slice(&rand_bytes(ctx, 12));
+                    let claimed = if ctx.tape.choose(2) == 0 { w.nodes[1].id } else { discv5::enr::NodeId::new(&{
+                        let mut t = [0u8; 32];
+                        t.copy_from_slice(&rand_bytes(ctx, 32));
+                        t
+                    }) };
+                    let bytes = toolkit::encode_packet(11, nonce, PacketKind::Message { src_id: claimed }, rand_bytes(ctx, 44), &w.nodes[0].id);
+                    ctx.fault("same_ip_other_port_while_exempt");
+                    ctx.ev(format!("t={} unsolicited packet at the victim from {sibling} while it waits for {}", now_ms(), w.nodes[1].addr));
+                    w.deliver(0, sibling, bytes, Origin::Injected { tag: "sibling-endpoint" });
+                }
                 if from == 0 && phase_of(now_ms()) % 2 == 1 {
                     // the victim must stay silent towards the banned peer while nothing is outstanding
                     ctx.fail("c13.banned-peer-answered-without-outstanding-exchange", format!("the victim emitted {} to the banned peer at {}ms although it was not waiting for anything from it", HWorld::<X>::describe(&w.wire[wi].dec), now_ms()), &[]);
@@ -866,6 +890,12 @@ async fn bypass_async(ctx: &mut Ctx) {
                     victim_outputs_in_quiet_phase += 1;
                     ctx.fail("c13.banned-peer-datagram-passed-filter", format!("at {t}ms the victim's handler reacted to a datagram of the banned peer ({}) although nothing was outstanding", out_name(&ev)), &[]);
                     break;
+                }
+                if let HandlerOut::WhoAreYou(wref) = &ev {
+                    if node == 0 && wref.0.socket_addr == sibling {
+                        ctx.fail("c13.exemption-extended-to-other-address", format!("at {t}ms the victim's handler reacted to a packet from {sibling} (same banned IP as the awaited peer, other port): the exemption is for the awaited address only"), &[]);
+                        break;
+                    }
                 }
                 match ev {
                     HandlerOut::WhoAreYou(wref) => {
